@@ -406,10 +406,10 @@ _types_cache = {}
 
 def _types(prog: Program):
     from ..types import Types
-    k = id(prog)
-    if k not in _types_cache:
-        _types_cache[k] = Types(prog)
-    return _types_cache[k]
+    t = getattr(prog, '_sa_types', None)
+    if t is None:
+        t = prog._sa_types = Types(prog)
+    return t
 
 
 def copy_rules(rep: Report, prog: Program, cm: ClassModel) -> None:
